@@ -274,11 +274,12 @@ pub fn run_empty_and_truncated() -> Sweep {
 
 /// Headers with many entries and entries with many items: counts around the powers of two at which index arithmetic changes width.
 pub fn run_entry_counts() -> Sweep {
-    let counts: [usize; 12] = [2, 15, 16, 17, 255, 256, 257, 1000, 4095, 4096, 65_535, 65_536];
+    // every number of items up to 1100 (so every residue of the index size modulo any block size up to 17 KiB), then the powers of two
+    let counts: Vec<usize> = (0..=1100).chain([4095, 4096, 65_535, 65_536]).collect();
     const COUNTED: [&str; 4] = ["index entries", "items of one INT32 entry", "items of one STRING_ARRAY entry", "bytes of one BIN entry"];
     // (which header, what is counted: entries of the header / items of one INT32 / items of one string array / bytes of one BIN)
     let n = (counts.len() * 4 * 2) as u64;
-    Sweep::new("entry-counts", format!("a header (as signature header and as main header) with n index entries, or with one INT32 / STRING_ARRAY / BIN entry of n items, for n ∈ {:?}: round trip byte for byte and true offsets", counts), n, move |i, acc| {
+    Sweep::new("entry-counts", format!("a header (as signature header and as main header) with n index entries, or with one INT32 / STRING_ARRAY / BIN entry of n items, for every n from 0 to 1100 and n ∈ {{4095, 4096, 65 535, 65 536}}: round trip byte for byte and true offsets"), n, move |i, acc| {
         acc.evals += 1;
         let in_sig = i % 2 == 1;
         let what = (i / 2 % 4) as usize;
